@@ -55,7 +55,9 @@ fn vote_of(v: usize, kind: VK, slot: u64, hash: Option<&BlockHash>) -> Vote {
 }
 
 pub fn run(max_windows: u64, honest: bool) -> WorldOutcome {
-    let n = 5 + kernel::choose(E, 3) as usize; // 5..=7, node 4 is the real one and never leads
+    // 5..=7 (honest mode: up to 11, so that crashed + Byzantine validators fit their budgets while the
+    // node's finalize vote is still needed); node 4 is the real one and never leads
+    let n = 5 + kernel::choose(E, if honest { 7 } else { 3 }) as usize;
     let real = 4usize;
     let windows = 1 + kernel::choose(E, max_windows.min(3)); // windows 0..=windows are led by validators 0..=3
     let (mut stakes, stake_kind) = keys::draw_stakes(n, E);
@@ -135,7 +137,14 @@ pub fn run(max_windows: u64, honest: bool) -> WorldOutcome {
             let silent: u64 = (0..n).filter(|i| *i != real && role[*i] == 2).map(|i| stakes[i]).sum();
             let notar_only: u64 = (0..n).filter(|i| *i != real && role[*i] == 1).map(|i| stakes[i]).sum();
             // feasible: notarization without the node, finalization only with it, faults within budget
-            if notar * 5 >= total * 3 && (full + stakes[real]) * 5 >= total * 3 && full * 5 < total * 3 && silent * 5 < total && notar_only * 5 < total {
+            // ... and no fast finalization either (notar stake incl. the node's stays below 80 %)
+            if notar * 5 >= total * 3
+                && (full + stakes[real]) * 5 >= total * 3
+                && full * 5 < total * 3
+                && (notar + stakes[real]) * 5 < total * 4
+                && silent * 5 < total * 2
+                && notar_only * 5 < total
+            {
                 vote_role = role;
                 vote_role[real] = 0;
                 kernel::fault("honest_environment_needs_the_nodes_votes");
@@ -204,7 +213,9 @@ pub fn run(max_windows: u64, honest: bool) -> WorldOutcome {
                 let needed = vote_role.iter().any(|r| *r != 0);
                 let (early, late) = match if honest { kernel::choose(E, 3) } else { 0 } {
                     1 => (150 + kernel::choose(E, 150), 0),
-                    2 if needed => (0, 150 + kernel::choose(E, 250)),
+                    // (not in a window's first slot: a block later than DELTA_TIMEOUT after the ready
+                    // parent legitimately triggers the crashed-leader timeout)
+                    2 if needed && s % 4 != 0 => (0, 150 + kernel::choose(E, 250)),
                     _ => (0, 0),
                 };
                 script.push((t_s - early + late + kernel::choose(E, 100), In::Block { b: (s, 1), parent: chain_tip }));
